@@ -288,7 +288,14 @@ def gen_aimed_case(rng, force_dir=None, kind=None):
         if rng.random() < 0.4:
             out.append(T(ids[2], None, resource='a', est=rng.choice([16, 64])))
         c['tasks'], c['links'] = out, []
-        d0 = max(c['pbound'], c['now']) // DAY - BASE_DAY if fwd else c['pbound'] // DAY - BASE_DAY
+        # bound and clock at midnight, no dependencies, no fixed dates: the unchanged schedulers then ask the calendar at
+        # midnight only, where the joined calendar is an ordinary function of the day (inside the model); the sampling of
+        # other times of day by the runner's tabulation is switched off for these cases (`tod_calendars`)
+        c['pbound'] = (c['pbound'] // DAY) * DAY
+        c['now'] = c['pbound'] - rng.choice([1, 2, 5]) * DAY
+        c['now2'] = None
+        c['tod_calendars'] = True
+        d0 = c['pbound'] // DAY - BASE_DAY
         k = rng.randint(1, 6)
         bound = day_us(d0 + k) if fwd else day_us(d0 - 1 - k)
         c['resources'] = [r for r in c['resources'] if r['name'] != 'a'] + \
